@@ -228,6 +228,7 @@ func c05Run(sc *c05Scenario, recs [][2]string, cpu, batch, gmp int) (string, []b
 	}
 	dir, _ := os.MkdirTemp("", "c05")
 	defer os.RemoveAll(dir)
+	stdin := ""
 	var a, b strings.Builder
 	for _, r := range recs {
 		a.WriteString(r[0])
@@ -253,16 +254,18 @@ func c05Run(sc *c05Scenario, recs [][2]string, cpu, batch, gmp int) (string, []b
 		args = append(args, "-F", filepath.Join(dir, "f.fastq"), "-R", filepath.Join(dir, "r.fastq"))
 	case "multiplex":
 		os.WriteFile(filepath.Join(dir, "sheet.csv"), []byte(c05Sheet), 0o644)
-		os.WriteFile(filepath.Join(dir, "in.fastq"), []byte(a.String()), 0o644)
-		args = append(args, "-t", filepath.Join(dir, "sheet.csv"), filepath.Join(dir, "in.fastq"))
-	case "fastq":
-		os.WriteFile(filepath.Join(dir, "in.fastq"), []byte(a.String()), 0o644)
-		args = append(args, filepath.Join(dir, "in.fastq"))
+		args = append(args, "-t", filepath.Join(dir, "sheet.csv"))
+		stdin = a.String()
 	default:
-		os.WriteFile(filepath.Join(dir, "in.fasta"), []byte(a.String()), 0o644)
-		args = append(args, filepath.Join(dir, "in.fasta"))
+		// the sequences come on stdin: it is the only reader that cuts its input into batches of
+		// --batch-size records (files are cut into 1 MiB chunks whatever the option says), so this is
+		// what makes the batch partition and the worker parallelism vary with the configuration
+		stdin = a.String()
 	}
 	cmd := exec.Command(bin, args...)
+	if sc.input != "pairs" {
+		cmd.Stdin = strings.NewReader(stdin)
+	}
 	cmd.Env = append(os.Environ(), "GOMAXPROCS="+strconv.Itoa(gmp))
 	var stdout bytes.Buffer
 	cmd.Stdout = &stdout
@@ -340,6 +343,14 @@ func (c05) Gen(rng *rand.Rand, tier string, emit func(string)) {
 		}
 		// empty input
 		emit(fmt.Sprintf("run %s seed=1 nrec=0 cpu=4 batch=3 gmp=4 rep=0", sc.name))
+		// stress: thousands of one-record batches in flight between 16 workers, against the sequential run
+		// (compared with each other only: no per-record model data for that many records)
+		if sc.input != "pairs" {
+			sseed := rng.Int63n(1 << 30)
+			emit(fmt.Sprintf("run %s seed=%d nrec=4000 cpu=1 batch=4000 gmp=1 rep=0", sc.name, sseed))
+			emit(fmt.Sprintf("run %s seed=%d nrec=4000 cpu=16 batch=1 gmp=16 rep=0", sc.name, sseed))
+			emit(fmt.Sprintf("run %s seed=%d nrec=4000 cpu=8 batch=3 gmp=8 rep=1", sc.name, sseed))
+		}
 	}
 }
 
@@ -404,7 +415,11 @@ func (c05) Exec(c string) (string, []Fail) {
 	}
 	// data for the model: the per-record outputs (every record run alone)
 	result := st + " " + c05Hash(out)
-	switch sc.kind {
+	kind := sc.kind
+	if nrec > 500 {
+		kind = "opaque"
+	}
+	switch kind {
 	case "records", "csv", "count":
 		singles := c05Singles(sc, int64(seed), nrec)
 		parts := make([]string, len(singles))
